@@ -278,7 +278,8 @@ func ruleATTRDOMAIN(c *Ctx, r *Report) {
 			key := op + "|" + s.where
 			bad := ""
 			for _, f := range s.facts {
-				if f.c != 0 {
+				// a comparison with the largest finite float is a finiteness test spelled differently
+				if f.c != 0 && math.Abs(f.c) != math.MaxFloat64 {
 					bad = fmt.Sprintf("%s %v", f.op, f.c)
 				}
 			}
